@@ -700,17 +700,16 @@ impl<T> TooDee<T> {
             
             let mut p = self.data.as_mut_ptr().add(start);
             // shift everything to make space for the new row
-            let suffix = p.add(num_cols);
-            ptr::copy(p, suffix, len - start);
+            ptr::copy(p, p.add(num_cols), len - start);
             
-            // Only iterates a maximum of `self.num_cols` times.
-            while p < suffix {
+            // Counted loop: comparing element pointers would not advance for zero-sized types.
+            for _ in 0..num_cols {
                 if let Some(e) = iter.next() {
                     ptr::write(p, e);
                     p = p.add(1);
                 } else {
                     // panic if the iterator length is less than expected
-                    assert_eq!(p, suffix, "unexpected iterator length");
+                    panic!("unexpected iterator length");
                 }
             }
             
